@@ -142,7 +142,25 @@ def gen_text(rng):
     return out
 
 
+FEATURES = [[13, 10], [13], [10], [0x2028], [0x85], [32, 50, 56], [0x1d11e], [11, 12], [13, 10, 13, 10], [10, 13]]
+
+
+def gen_long_text(rng, tier="thorough"):
+    """size class: a text whose length is about a power of two, with a line break (or near miss) exactly across the
+    4096 / 8192 offset - where a scanner that worked in chunks would have its edge"""
+    b = rng.choice([4096, 4096, 8192]) if tier == "thorough" else 4096
+    k = rng.randint(0, 3)
+    head = gen_text(rng)[:k]
+    runs = [[head, 1], [[rng.choice([97, 233, 32])], b - len(head) - rng.randint(0, 2)], [rng.choice(FEATURES), 1],
+            [gen_text(rng)[:12], 1]]
+    if rng.random() < 0.3:
+        runs += [[[98], b - 20], [rng.choice(FEATURES), 1]]
+    return [r for r in runs if r[0] and r[1] > 0]
+
+
 def gen_split(rng, tier):
+    if rng.random() < (0.015 if tier == "thorough" else 0.006):
+        return {"k": "split", "runs": gen_long_text(rng, tier)}
     return {"k": "split", "runs": [[gen_text(rng), 1]]}
 
 
@@ -151,6 +169,8 @@ NEWLINES = [[10], [10], [13, 10], [], [124], [0x2028]]
 
 
 def gen_indent(rng, tier):
+    if rng.random() < (0.015 if tier == "thorough" else 0.006):
+        return {"k": "indent", "runs": gen_long_text(rng, tier), "margin": rng.choice(MARGINS), "newline": rng.choice(NEWLINES)}
     return {"k": "indent", "runs": [[gen_text(rng), 1]], "margin": rng.choice(MARGINS), "newline": rng.choice(NEWLINES)}
 
 
@@ -327,6 +347,17 @@ def gen_rev(rng, tier):
         content = gen_content(rng, n, mode, lone_cr, invalid, utf8)
         runs = [[content, 1]]
         bs = pick_blocksizes(rng, len(content))
+    elif r < (0.965 if tier == "thorough" else 0.956):
+        # size class: 64-128 KB with a line break / multi-byte character across the offset 65536 or 131072 from the
+        # END (where the backward reader's blocks of 4096 / 65536 have their edges)
+        b = rng.choice([65536, 65536, 131072])
+        feat = rng.choice([[13, 10], [10], [13, 10, 13, 10]] + ([[0xc3, 0xa9], [0xe2, 0x82, 0xac], [0xf0, 0x9d, 0x84, 0x9e]]
+                                                                if (utf8 or eff is None) else [[0xe9], [0xa0]]))
+        tail = gen_content(rng, rng.randint(0, 6), mode, False, False, utf8)
+        runs = [[gen_content(rng, rng.randint(0, 6), mode, False, False, utf8), 1], [[97], rng.randint(1, 3000)], [feat, 1],
+                [[98], b - len(tail) - rng.randint(0, len(feat))], [tail, 1]]
+        runs = [x for x in runs if x[0] and x[1] > 0]
+        bs = [[4096, rng.choice(["pos", "kw", "default"])], [65536, "kw"], [rng.choice([b, b - 1, 4095, 10 ** 9]), "kw"]]
     else:
         # 1-3 blocks of 4096: few lines, long runs
         runs = []
@@ -435,13 +466,15 @@ def gen_jsonl(rng, tier):
         if feats:
             i = rng.choice(feats)
             after = len(content) - (i + 1)          # bytes after the first byte of the feature
-            k = rng.choice([1, 1, 2])
-            pad = (4096 * k - after) % 4096
+            k = rng.choice([1, 1, 1, 2, 2, 3] + ([8, 8, 16] if tier == "thorough" else []))
+            pad = 4096 * k - after
+            if pad < 0:
+                pad %= 4096
             # trailing white space after the final line break keeps the file's lines unchanged but one blank
             runs.append([[32], pad])
             if rng.random() < 0.5:
                 runs.append([[10], 1])
-                runs[-2][1] = (pad - 1) % 4096
+                runs[-2][1] = pad - 1 if pad >= 1 else 4095
             runs = [r for r in runs if r[1]]
     if mode in SBCS_MODES:
         runs = [[sbcs_defined(mode, r[0]), r[1]] for r in runs]
@@ -824,6 +857,8 @@ def distribution(d, case, obs):
         if any(c in content for c in (0x1c, 0x1d, 0x1e)):
             inc("split_has_sep_ctl(spec validation skipped)")
         d["split_max_len"] = max(d.get("split_max_len", 0), len(content))
+        if len(content) >= 4096:
+            inc("split_4096_or_longer")
         return
     if case.get("wrap"):
         inc("handle_is_a_wrapper_over_BytesIO")
@@ -836,6 +871,8 @@ def distribution(d, case, obs):
         inc(k + "_edge_inside_multibyte_char")
     if len(content) > 4096:
         inc(k + "_larger_than_4096")
+    if len(content) > 32000:
+        inc(k + "_larger_than_32000")
     if 13 in content and any(content[i] == 13 and content[i + 1:i + 2] != [10] for i in range(len(content))):
         inc(k + "_lone_CR(outside domain)")
     if k == "rev":
